@@ -16,7 +16,8 @@ import (
 
 var keys = []string{"command", "commands", "plugins", "wait", "waiter", "block", "input", "manual", "trigger", "group"}
 var values = map[string]string{"command": "c", "commands": "[a, b]", "plugins": "[p#v1]", "wait": "~", "waiter": "~", "block": "b", "input": "i", "manual": "m", "trigger": "t", "group": "g"}
-var types = []string{"", "command", "script", "wait", "waiter", "block", "input", "manual", "trigger", "group", "mystery", "Command", "7"}
+// type values: the documented ones, near misses, and every kind-deciding KEY name used as a type (a key name is not a type)
+var types = []string{"", "command", "script", "wait", "waiter", "block", "input", "manual", "trigger", "group", "mystery", "Command", "7", "commands", "plugins", "steps", " wait", "waits"}
 
 func byType(t string) string {
 	switch t {
@@ -75,6 +76,8 @@ func TestC15(t *testing.T) {
 				}
 				if extra {
 					add("zzz_unknown", "x")
+					add("script", "a type word is not a kind-deciding key")
+					add("waits", "x")
 				}
 				for x := range keys {
 					i := x
@@ -86,8 +89,10 @@ func TestC15(t *testing.T) {
 						add(k, values[k])
 					}
 				}
-				if ty != "" {
-					add("type", ty)
+				if ty == "7" {
+					add("type", ty) // a non-string type
+				} else if ty != "" {
+					add("type", fmt.Sprintf("%q", ty))
 				}
 				if first {
 					continue // no key at all
